@@ -72,9 +72,22 @@ func (f *File) Read(p []byte) (int, error) {
 	return f.f.Read(p)
 }
 
+// Write is a scheduling point, and a write of more than a few bytes becomes visible in two
+// halves with another scheduling point in between: a reader that does not exclude writers can see
+// the first half of a line (what a large write(2) on a regular file allows).
 func (f *File) Write(p []byte) (int, error) {
 	vsched.Yield("file.Write")
-	return f.f.Write(p)
+	if len(p) < 16 || vsched.Active() == nil {
+		return f.f.Write(p)
+	}
+	h := len(p) / 2
+	n, err := f.f.Write(p[:h])
+	if err != nil {
+		return n, err
+	}
+	vsched.Yield("file.Write.rest")
+	m, err := f.f.Write(p[h:])
+	return n + m, err
 }
 
 func (f *File) WriteString(s string) (int, error) { return f.Write([]byte(s)) }
